@@ -252,6 +252,8 @@ pub(super) fn div_rem_ref(u: &BigUint, d: &BigUint) -> (BigUint, BigUint) {
 fn div_rem_core(mut a: BigUint, b: &[BigDigit]) -> (BigUint, BigUint) {
     debug_assert!(a.data.len() >= b.len() && b.len() > 1);
     debug_assert!(b.last().unwrap().leading_zeros() == 0);
+    #[cfg(num_bigint_verif)]
+    crate::verif::hit(crate::verif::DIV_CORE);
 
     // The algorithm works by incrementally calculating "guesses", q0, for the next digit of the
     // quotient. Once we have any number q0 such that (q0 << j) * b <= a, we can set
@@ -295,6 +297,8 @@ fn div_rem_core(mut a: BigUint, b: &[BigDigit]) -> (BigUint, BigUint) {
             (q0, r as DoubleBigDigit)
         } else {
             debug_assert!(a0 == b0);
+            #[cfg(num_bigint_verif)]
+            crate::verif::hit(crate::verif::DIV_A0_EQ_B0);
             // Avoid overflowing q0, we know the quotient fits in BigDigit.
             // [a1,a0] = b0 * (1<<BITS - 1) + (a0 + a1)
             (big_digit::MAX, a0 as DoubleBigDigit + a1 as DoubleBigDigit)
@@ -314,6 +318,8 @@ fn div_rem_core(mut a: BigUint, b: &[BigDigit]) -> (BigUint, BigUint) {
         {
             q0 -= 1;
             r += b0 as DoubleBigDigit;
+            #[cfg(num_bigint_verif)]
+            crate::verif::hit(crate::verif::DIV_CORR);
         }
 
         // q0 is now either the correct quotient digit, or in rare cases 1 too large.
@@ -322,6 +328,8 @@ fn div_rem_core(mut a: BigUint, b: &[BigDigit]) -> (BigUint, BigUint) {
         let mut borrow = sub_mul_digit_same_len(&mut a.data[j..], b, q0);
         if borrow > a0 {
             // q0 is too large. We need to add back one multiple of b.
+            #[cfg(num_bigint_verif)]
+            crate::verif::hit(crate::verif::DIV_ADDBACK);
             q0 -= 1;
             borrow -= __add2(&mut a.data[j..], b);
         }
@@ -707,4 +715,13 @@ impl Euclid for BigUint {
         // trivially same as regular division and remainder
         self.div_rem(v)
     }
+}
+
+#[cfg(num_bigint_verif)]
+pub(super) fn verif_div_rem_core(a: BigUint, b: &[BigDigit]) -> (BigUint, BigUint) {
+    div_rem_core(a, b)
+}
+#[cfg(num_bigint_verif)]
+pub(super) fn verif_sub_mul_digit_same_len(a: &mut [BigDigit], b: &[BigDigit], c: BigDigit) -> BigDigit {
+    sub_mul_digit_same_len(a, b, c)
 }
